@@ -88,7 +88,10 @@ pub fn scenarios(prop: &str, thorough: bool) -> Vec<Scenario> {
     match prop {
         "C13" => {
             for p in ["", "a"] {
-                for variant in 0..4 {
+                for variant in 0..6 {
+                    if variant >= 4 && p.is_empty() {
+                        continue;
+                    }
                     let mut u = vec![UOp::Reparse(0, p)];
                     let mut inj = Vec::new();
                     match variant {
@@ -98,9 +101,20 @@ pub fn scenarios(prop: &str, thorough: bool) -> Vec<Scenario> {
                             u.push(UOp::Tick);
                             u.push(UOp::Reparse(0, if p.is_empty() { "b" } else { "ab" }));
                         }
-                        _ => {
+                        3 => {
                             u.push(UOp::Tick);
                             u.push(UOp::Push(it(2, "a")));
+                        }
+                        // a run that can be interrupted, followed by work that takes the
+                        // empty-pattern / cleared path: state left by the interrupted run must not
+                        // suppress the wake-up of the next one
+                        4 => {
+                            u.push(UOp::Tick);
+                            u.push(UOp::Reparse(0, ""));
+                        }
+                        _ => {
+                            u.push(UOp::Tick);
+                            u.push(UOp::Restart(false));
                         }
                     }
                     u.push(UOp::EventLoop(6));
@@ -285,6 +299,36 @@ pub fn scenarios(prop: &str, thorough: bool) -> Vec<Scenario> {
                                     flag_points: false,
                                 });
                             }
+                        }
+                    }
+                }
+            }
+            // (Ap) appending edits of every shape: each start text (plain, negated, anchored,
+            // escaped, multi-word with a negated word first or last) extended by each suffix kind
+            // (same word, new word, new negated word, anchor, blank, backslash); the from-scratch
+            // reference decides whether the shortcut an "append" allows was legitimate
+            {
+                let starts: &[&str] = &["a", "!a", "a !b", "!a b", "a$", "^a", "a\\", "!a$", "'a", "a b"];
+                let suffixes: &[&str] = &["b", " c", "b c", " !c", "$", " ", "\\", "c !b"];
+                for pool in [1usize, 2] {
+                    if pool == 2 && !thorough {
+                        continue;
+                    }
+                    for t1 in starts {
+                        for sfx in suffixes {
+                            let t2: &'static str = Box::leak(format!("{t1}{sfx}").into_boxed_str());
+                            v.push(Scenario {
+                                name: format!("Ap/pool{pool}/{t1:?}>{t2:?}"),
+                                pool_threads: pool,
+                                columns: 1,
+                                preload: vec![it(100, "a"), it(101, "ab"), it(102, "ac"), it(103, "a c"), it(104, "abc"), it(105, "ab c"), it(106, "b"), it(107, "c"), it(108, "a$"), it(109, "a\\"), it(110, "xa"), it(111, "a b"), it(112, "ba c")],
+                                u: vec![UOp::Reparse(0, t1), UOp::Tick, UOp::Reparse(0, t2), UOp::Drain(6)],
+                                injectors: vec![],
+                                slots: 0,
+                                bound: 0,
+                                fine: true,
+                                flag_points: false,
+                            });
                         }
                     }
                 }
